@@ -53,6 +53,25 @@ impl Escaper {
             Escaper::Unicode => has_unprintable_unicode(raw),
         }
     }
+
+    /// Returns the modifier that must follow the [`Self::escaped_expectation`]
+    /// of the given line of output, so that the two together read back as an
+    /// expectation for exactly that line: nothing for an escaped rendering
+    /// (which ignores the final newline), ` (no-eol)` for a line without final
+    /// newline, and an explicit ` (equal)` for text that would otherwise be
+    /// read as something else (a modifier, an exit code)
+    pub fn expectation_suffix(&self, line: &[u8]) -> &'static str {
+        let content = line.trim_newlines();
+        if self.has_unprintable(content) {
+            ""
+        } else if !line.ends_with(b"\n") {
+            " (no-eol)"
+        } else if content.ends_with(b")") || content.ends_with(b"]") {
+            " (equal)"
+        } else {
+            ""
+        }
+    }
 }
 
 /// Convenience wrapper for [`String::from_utf8_lossy`]
